@@ -57,3 +57,41 @@ func VerifC15Stream() {
 	}
 	rt.Observe("delivered", got)
 }
+
+// VerifC15Large (HT-15d): one write larger than the buffers involved (the
+// websocket buffer, io.Copy's 32 KiB chunk) followed by a small one, read back
+// through io.Copy-sized buffers. The content is a concrete pattern with three
+// symbolic bytes (first, middle, last of the large write).
+func VerifC15Large() {
+	a := &WebsocketNetConn{Conn: new(websocket.Conn)}
+	b := &WebsocketNetConn{Conn: new(websocket.Conn)}
+	rt.Link(a.Conn, b.Conn)
+
+	sizes := []int{4097, 32768, 32769, 65537}
+	size := sizes[rt.Choice("size", rt.Param("sizes", 4))]
+	big := make([]byte, size)
+	for i := range big {
+		big[i] = byte(i*7 + 3)
+	}
+	big[0], big[size/2], big[size-1] = rt.Byte("first"), rt.Byte("middle"), rt.Byte("last")
+	n, err := a.Write(big)
+	rt.Assert(err == nil && n == size, "C15.write-reports-all-bytes")
+	tail := rt.Bytes("tail", 1)
+	n, err = a.Write(tail)
+	rt.Assert(err == nil && n == len(tail), "C15.write-reports-all-bytes")
+	rt.CloseWrite(a.Conn)
+
+	sent := append(append([]byte{}, big...), tail...)
+	var got []byte
+	buf := make([]byte, []int{32 * 1024, 1000, 100000}[rt.Choice("readBuffer", 3)])
+	for i := 0; i < 80; i++ {
+		n, err := b.Read(buf)
+		if err != nil {
+			rt.Cover("C15.large-write-reader-saw-end")
+			break
+		}
+		rt.Assert(n <= len(buf), "C15.read-count-within-buffer")
+		got = append(got, buf[:n]...)
+	}
+	rt.Assert(bytes.Equal(sent, got), "C15.large-write-arrives-complete-and-unmodified")
+}
